@@ -12,19 +12,20 @@ SPEC = {
         "C05: the FIFO walker queue of resolve is modelled generation by generation (all walkers with |path| = k before those with |path| = k+1, same order); validated by the correspondence on depths and Ok/Err",
         "C05: reading .tiny/.tinydiff, contract/extend of inner class names and apply are PARAMETERS of the graph model and of the graph theorems (sections 1-5 of Props/C05.v); in the CDir correspondence cases they are finite tables filled by calling quill's own functions on the real file contents",
         "C05: the instance vg_ops (coq/C05/Instance.v) composes the models of C03 (read, 2 namespaces), C11 (contract/extend with \"named\") and C04 (.tinydiff read, apply_to with \"named\") in the way resolve/apply_diffs call them — five lines read off src/version_graph.rs, pinned by C05_instance_definitions, and compared end to end with the implementation in the CInst correspondence cases (whole file contents; resolve Ok/Err and apply_diffs of every lookup name up to map order). The instantiated theorems inherit the trusted base of C03, C04 and C11 (their models are tied to quill by those properties' own correspondence runs); C04's .tinydiff printer is the specification of the text form (the repository has none)",
+        "C05: the accessors get_all / get_diff are modelled (coq/C05/Model.v) and compared on every CDir case (get_all of several name lists, get_diff of every node pair incl. WHICH file is read when collisions make parallel edges); parents/children/versions/is_root_then_get_mappings/depth were compared before; the remaining helpers of src/version_graph.rs (VersionEntry ==/hash/make_owned, get_environment, get_minecraft_version, write_as_dot, map_shortcut) are exercised by the harness oracle only (no model)",
         "C05: file-name constants (.tiny, .tinydiff, '~', '#', \"named\") are regenerated from src/version_graph.rs by translate/c05_consts.py on every run",
     ],
     "stated_not_proved": [
         "history_sound_instantiated_full: the instantiated history theorem WITHOUT the restrictions inherited from C04's open findings — histories in which a parameter's first-namespace name changes along an edge (F3) or some comment is the empty string (F4) — is not proved (C04 refutes the inverse law there: C04_diff_apply_refuted, C04_text_inverse_refuted); likewise an edge that changes the top-level comment (not expressible in the .tinydiff text)",
-        "root_textual_from_contracted: C03.textual (extend (H root)) is a hypothesis on the extended root set (decidable, evaluated); deriving it from hypotheses on the contracted set H root alone (extended names are $-joins of clean names) is not proved",
+        "root_from_c04_hypotheses: C05_root_ok_from_contracted needs C03.textual of the contracted root set; it does not follow from version_ok alone, because C04's textual_mappings does not constrain a parameter's first-namespace name (C03's textual does) — the two hypotheses are kept side by side",
         "answer_order: which representative of the mequiv class apply_diffs returns (the order of classes/fields/methods/parameters in the answer) is not stated; the CInst correspondence compares up to order as well",
-        "depth_spec: resolve lr d = Ok g -> nth i (g_depths g) 0 = length of a shortest walk from the root to i (0 for the root and for unreachable nodes) — the depths are part of the model and are compared with the implementation on every correspondence case, and the harness oracle checks depth = BFS distance on the implementation; no theorem",
-        "queue_generations: the level-by-level formulation of the walk equals the FIFO queue formulation of the Rust code — a modelling step (trusted base), validated by the correspondence on depths and Ok/Err",
+        "queue_generations: the level-by-level formulation of the walk equals the FIFO queue formulation of the Rust code — a modelling step (trusted base), validated by the correspondence on depths and Ok/Err (C05_depth_spec and C05_walk_err_iff_cycle are theorems about the level-by-level formulation)",
         "shortest_fuel_any_graph: on graphs that did not come out of a successful resolve, |nodes|+1 levels still reach every node (pigeonhole); not needed because candidates are only asked of resolved graphs (resolve_walks_bounded is proved and used instead)",
     ],
     "assumptions": [
         "file names are valid UTF-8 (the implementation returns an error otherwise) and directory entries are plain files",
         "the directory does not change between resolve and apply_diffs",
+        "the theorems of section 7 of Props/C05.v (depth_spec, indices_valid, resolve_err_iff, walk_err_iff_cycle, get_all_spec, get_diff) hold for EVERY directory, collisions of lookup names included; C05_malformed_iff (the name-level reading: error iff bad name / not exactly one .tiny / unreadable root / a cycle among the named versions reachable from the root) needs well_formed",
         "well_formed d: the lookup names (plain names, both halves of a~b names) of different version strings are pairwise different and the halves of one name differ — decidable, checked by the harness' reference reader on every generated directory (collision directories are generated too, for correspondence only); for the order-independence theorems additionally distinct file names (true of every real directory)",
         "generic history theorems (C05_history_sound, _eq, _composed, C05_history_sim): the laws of the composed operations are explicit premises; they are DISCHARGED for the concrete operations in C05_history_sound_instantiated / C05_history_dir_sound, whose hypotheses are all decidable and evaluated by vm_compute on the example: per version version_ok (wf, two namespaces with \"named\" second, every entry named in it, C04 textual_mappings, no empty comment = outside C04's known class F4), per edge edge_ok (same namespaces, same top-level comment because the .tinydiff text has no line for it, outside C04's known class F3: a parameter's first-namespace name is not part of a diff), for the root root_ok (C11 simple_names — shown necessary in C11 — and C03 textual of the EXTENDED root set, which is what is written), for the directory: well_formed, exactly one .tiny file, no .tinydiff name without #, no cycle (a rank that every edge increases; in hist_ok: parents listed before children)",
         "instantiated conclusion is up to C04's mequiv (same namespaces and top-level comment; at every level the same keys with equal names, descriptors, comments): the order of the maps in the answer is not characterised (it depends on the path and on IndexMap insertion/swap_remove order; the example's grandchild answer differs in order from extend (H v))",
